@@ -294,6 +294,25 @@ def check_stubs(n=4000, seed=0):
                 g = ("ValueError",)
             if w != g:
                 bad.append({"stub": "datetime", "fields": f, "real": w, "stub_result": g})
+        # strptime model (full-width reading) on pinned symbolic digit texts, incl. the %y pivot
+        from .strings import mk
+        fmt = "%y-%m-%dT%H:%M:%S"
+        for _ in range(n // 2):
+            f = [rnd.choice([0, 1, 4, 24, 67, 68, 69, 70, 96, 99, rnd.randrange(100)]), rnd.randrange(0, 14), rnd.randrange(0, 33), rnd.randrange(0, 25), rnd.randrange(0, 62), rnd.randrange(0, 63)]
+            text = "%02d-%02d-%02dT%02d:%02d:%02d" % tuple(f)
+            try:
+                want = D.datetime.strptime(text, fmt)
+                w = ("ok", want.isoformat())
+            except ValueError:
+                w = ("ValueError",)
+            st = mk([ch if not ch.isdigit() else z3.IntVal(ord(ch)) for ch in text])
+            try:
+                sd = stubs.sym_strptime(st, fmt)
+                g = ("ok", str(sd.isoformat(timespec="seconds")))
+            except ValueError:
+                g = ("ValueError",)
+            if w != g:
+                bad.append({"stub": "strptime", "text": text, "real": w, "stub_result": g})
         for _ in range(n // 4):
             vals = (rnd.randrange(0, 300), rnd.randrange(0, 9), rnd.randrange(0, 70000), rnd.randrange(0, 70000))
             fmt = "<xxxxBxxxBxxxHxxHxx"
@@ -316,7 +335,7 @@ def check_stubs(n=4000, seed=0):
                     bad.append({"stub": "struct.unpack", "vals": vals})
     finally:
         core.CTX = None
-    return {"cases": n + n // 4, "n_disagreements": len(bad), "disagreements": bad[:10]}
+    return {"cases": n + n // 2 + n // 4, "n_disagreements": len(bad), "disagreements": bad[:10]}
 
 
 def main(tier="quick", argv=()):
